@@ -1,2 +1,385 @@
-// Package c20 decides C20 (see DESIGN.md section 4). Not built yet.
+// Package c20 decides C20 (the build cache is transparent, never stale and
+// tolerates damage).
+//
+// spec/Cache.tla is a state machine of the cache directory (final and temporary
+// files; Store as CreateTemp -> Write -> Close -> Rename with a crash after any
+// step; damage by the environment; source modification; Load).  TLC checks on
+// it that the operational Load agrees with the declarative statement of the
+// property in every reachable state (and that five seeded wrong variants of the
+// model are rejected).  spec/CacheScen.tla enumerates histories with the
+// predicted outcome of every operation, of every Load and of the directory
+// listing; this package replays them on the real cache.BuildCache of /repo in
+// child processes whose cache root lies in the scratch directory - crashes are
+// real process deaths at the fail points of Store - and compares.  A damage
+// sweep truncates one stored entry at every byte offset and flips bits in it;
+// a round trip stores, restores and compiles real packages through the build
+// session and requires byte-identical JavaScript.
 package c20
+
+import (
+	"encoding/json"
+	"fmt"
+	"os"
+	"path/filepath"
+	"sort"
+	"strings"
+	"sync"
+	"sync/atomic"
+	"time"
+
+	"verif/core"
+	"verif/gjs"
+	"verif/reg"
+	"verif/tlcx"
+)
+
+func init() { reg.Register("C20", "model_checking", Run) }
+
+var invariants = []string{"LoadIffSpec", "NeverOtherKey", "NoPartial", "TestNever", "VisibleComplete"}
+
+func modelCfg() string {
+	s := "SPECIFICATION Spec\n"
+	for _, i := range invariants {
+		s += "INVARIANT " + i + "\n"
+	}
+	return s + "CHECK_DEADLOCK FALSE\n"
+}
+
+// modelParams are the bounds of the TLC run on Cache.tla itself: the base
+// configuration, one that differs in the version, one that differs in the
+// tested package; a package, its external test package and (thorough) a third.
+func modelParams(c *core.Ctx, variant string) map[string]any {
+	cfg := func(version, tested int) map[string]int {
+		return map[string]int{"goos": 1, "goarch": 1, "goroot": 1, "gopath": 1, "tags": 1, "version": version, "tested": tested}
+	}
+	p := map[string]any{
+		"cfgs":   []any{cfg(1, 0), cfg(2, 0), cfg(1, 1)},
+		"npaths": 2, "xtest": []int{0, 1}, "variant": variant,
+		"procs": 2, "maxStores": 2, "maxTime": 2, "maxDamage": 1,
+	}
+	if c.Thorough() && variant == "ref" {
+		p["maxStores"], p["maxTime"] = 3, 3
+	}
+	return p
+}
+
+// workerPool hands out workers.
+type workerPool struct {
+	ch  chan *worker
+	all []*worker
+}
+
+func newWorkerPool(scratch string, n int) (*workerPool, error) {
+	p := &workerPool{ch: make(chan *worker, n)}
+	for i := 0; i < n; i++ {
+		w, err := newWorker(scratch, i)
+		if err != nil {
+			return nil, err
+		}
+		p.all = append(p.all, w)
+		p.ch <- w
+	}
+	return p, nil
+}
+
+func (p *workerPool) get() *worker  { return <-p.ch }
+func (p *workerPool) put(w *worker) { p.ch <- w }
+func (p *workerPool) close() {
+	for _, w := range p.all {
+		w.close()
+	}
+}
+
+// Run is the C20 check.
+func Run(c *core.Ctx, pool *gjs.Pool) {
+	c.Assumef("a crash is the death of the storing process (os.Exit at a fail point of Store, in the middle of the serialiser for `writing`); loss of data that the operating system had accepted (power failure) is not modelled")
+	c.Assumef("damage is judged by an independent guard: a file is intact iff it is a gzip stream that decompresses to its end with matching CRC-32 and size to the bytes that were stored; flipped bits that leave it intact (MTIME/XFL/OS bytes of the gzip header) must still hit")
+	c.Assumef("the configuration key is (GOOS, GOARCH, GOROOT, GOPATH, BuildTags, Version); TestedPackage is not part of it: it only excludes that package and its _test package (as the property text says)")
+	c.Assumef("concurrent stores are checked on the model only (two processes); replays are sequential with crashes")
+	if rp := os.Getenv("VERIF_REPLAY"); rp != "" {
+		replayDir(c, rp)
+		return
+	}
+	var checker []string
+	// development aid: VERIF_C20_ONLY=model,histories,sweep,roundtrip restricts the phases (the evidence then says so)
+	only := os.Getenv("VERIF_C20_ONLY")
+	phase := func(p string) bool { return only == "" || strings.Contains(only, p) }
+	if only != "" {
+		c.Set("phases_restricted_to", only)
+	}
+	if phase("model") && !runModel(c, &checker) {
+		return
+	}
+	c.Phase("model")
+
+	wp, err := newWorkerPool(c.Scratch, c.Workers)
+	if err != nil {
+		c.Infra(err)
+		return
+	}
+	defer wp.close()
+
+	// 2. histories
+	if phase("histories") {
+		if !runHistories(c, wp, &checker) {
+			return
+		}
+	} else {
+		referenceDamagePred()
+	}
+	c.Phase("histories")
+
+	// 3. damage sweep
+	if phase("sweep") && !runSweep(c, wp) {
+		return
+	}
+	c.Phase("sweep")
+
+	// 4. round trip and transparency
+	if phase("roundtrip") && !runRoundTrip(c, wp) {
+		return
+	}
+	c.Phase("roundtrip")
+
+	c.Set("checker_cmd", strings.Join(checker, "; "))
+	c.Set("child_processes", int(atomic.LoadInt64(&spawns)))
+	c.Set("real_crashes", int(atomic.LoadInt64(&crashes)))
+	c.Set("traces_validated_against_impl", c.Get("histories_replayed"))
+	c.Set("rule", "histories: every history of CacheScen.tla over {store x 7 modes, damage x 7 kinds, touch} per unit (pair of configurations x pair of import paths), complete to the depth given in histories_complete_depth and seed-sampled beyond; a maximal history counts once as distinct; evaluations = compared Store results + directory listings + guard checks of visible files + Load results. sweep: one case per (entry, truncation offset) and per (entry, flipped bit / replaced byte). roundtrip: one case per stored and restored package and per compiled program")
+}
+
+// runModel checks Cache.tla itself and requires the wrong variants to be rejected.
+func runModel(c *core.Ctx, checkerp *[]string) bool {
+	checker := *checkerp
+	defer func() { *checkerp = checker }()
+	pj, _ := json.Marshal(modelParams(c, "ref"))
+	r, err := tlcx.Run(c, tlcx.Opts{Module: "Cache", Cfg: modelCfg(), Workers: 8, Timeout: 25 * time.Minute, Files: map[string]string{"c20_params.json": string(pj)}})
+	if !tlcx.MustComplete(c, r, err, "Cache (reference semantics)") {
+		return false
+	}
+	c.Set("model_states", r.Distinct)
+	checker = append(checker, "tlc Cache (INVARIANTS "+strings.Join(invariants, ", ")+")")
+	variants := []string{"inplace", "dropfield", "staleinv", "notest", "nocrc"}
+	rejected := make([]string, len(variants))
+	c.ParMap(len(variants), func(i int) {
+		pj, _ := json.Marshal(modelParams(c, variants[i]))
+		r, err := tlcx.Run(c, tlcx.Opts{Module: "Cache", Cfg: modelCfg(), Workers: 2, Timeout: 10 * time.Minute, HeapMB: 2048, Files: map[string]string{"c20_params.json": string(pj)}})
+		if err != nil {
+			c.Infra(err)
+			return
+		}
+		if r.Violated == "" || r.Violated == "error" || r.Violated == "deadlock" {
+			c.Infra(fmt.Errorf("the seeded wrong model variant %q is not rejected by the invariants (violated=%q completed=%v)\n%s", variants[i], r.Violated, r.Completed, tlcx.Tail(r.Output, 30)))
+			return
+		}
+		rejected[i] = variants[i] + ":" + r.Violated
+	})
+	if c.InfraErr != nil {
+		return false
+	}
+	c.Set("model_variants_rejected", rejected)
+	checker = append(checker, "tlc Cache with variant in {inplace, dropfield, staleinv, notest, nocrc}: an invariant must be violated")
+	return true
+}
+
+type thresholds struct {
+	L int
+	// per sampling class (1: the units enumerated completely to depth 2, 2: the others)
+	ThrN, ThrC [][]int
+}
+
+func historyBounds(c *core.Ctx) thresholds {
+	if c.Thorough() {
+		return thresholds{L: 5,
+			ThrN: [][]int{{1000, 1000, 120, 60, 50}, {1000, 300, 80, 50, 40}},
+			ThrC: [][]int{{1000, 300, 60, 40, 40}, {1000, 100, 40, 30, 30}}}
+	}
+	return thresholds{L: 4,
+		ThrN: [][]int{{1000, 1000, 30, 40}, {1000, 80, 40, 30}},
+		ThrC: [][]int{{1000, 60, 30, 30}, {300, 40, 20, 20}}}
+}
+
+// fullUnits are enumerated with the thresholds of class 1.
+var fullUnits = map[string]bool{"goos": true, "tested": true}
+
+func runHistories(c *core.Ctx, wp *workerPool, checker *[]string) bool {
+	us := units()
+	table := abstractCfgs(us)
+	b := historyBounds(c)
+	var urecs []map[string]int
+	for _, u := range us {
+		cls := 2
+		if fullUnits[u.Name] {
+			cls = 1
+		}
+		urecs = append(urecs, map[string]int{"a": u.ai, "b": u.bi, "p1": u.P[0], "p2": u.P[1], "cls": cls})
+	}
+	params := map[string]any{
+		"cfgs": table, "npaths": len(pathNames) - 1, "xtest": []int{0, 0, 1, 0}, "variant": "ref",
+		"procs": 1, "maxStores": 0, "maxTime": 0, "maxDamage": 0,
+		"units": urecs, "L": b.L, "thrN": b.ThrN, "thrC": b.ThrC, "seed": int(c.Seed % 1000000), "out": "scen",
+	}
+	pj, _ := json.Marshal(params)
+	cfg := "SPECIFICATION SpecS\nINVARIANT ProbeOK\nINVARIANT Emit\nCHECK_DEADLOCK FALSE\n"
+	r, err := tlcx.Run(c, tlcx.Opts{Module: "CacheScen", Cfg: cfg, Workers: 8, Timeout: 25 * time.Minute, Files: map[string]string{"c20_params.json": string(pj)}, HeapMB: 8192})
+	if !tlcx.MustComplete(c, r, err, "CacheScen") {
+		return false
+	}
+	*checker = append(*checker, "tlc CacheScen (INVARIANT ProbeOK: operational Load = declarative specification on every history state; INVARIANT Emit)")
+	files, _ := filepath.Glob(filepath.Join(r.Dir, "scen.*.ndjson"))
+	sort.Strings(files)
+	var all []*historyT
+	for _, f := range files {
+		err := tlcx.ReadNDJSON(f, func(raw json.RawMessage) error {
+			h, err := decodeHistory(raw)
+			if err != nil {
+				return err
+			}
+			all = append(all, h)
+			return nil
+		})
+		if err != nil {
+			c.Infra(fmt.Errorf("decode %s: %v", filepath.Base(f), err))
+			return false
+		}
+	}
+	if len(all) != r.Distinct-len(us) {
+		c.Infra(fmt.Errorf("CacheScen wrote %d histories, TLC reports %d states beyond the %d initial ones", len(all), r.Distinct-len(us), len(us)))
+		return false
+	}
+	collectDamagePred(all)
+	hs := maximal(all)
+	complete := map[string]int{}
+	for cls, name := range []string{"units goos, tested", "other units"} {
+		for d := 0; d < b.L && b.ThrN[cls][d] == 1000; d++ {
+			complete[name+" (non-crashing operations)"] = d + 1
+		}
+		for d := 0; d < b.L && b.ThrN[cls][d] == 1000 && b.ThrC[cls][d] == 1000; d++ {
+			complete[name+" (all operations)"] = d + 1
+		}
+	}
+	c.Set("histories_enumerated", len(all))
+	c.Set("histories_complete_depth", complete)
+	c.Set("history_max_length", b.L)
+	c.Set("units", len(us))
+	c.Set("exhaustive", false)
+	c.Phase("tlc_histories")
+
+	if os.Getenv("VERIF_C20_CORRUPT") == "pred" {
+		// sensitivity demonstration: falsify one predicted Load result
+		for _, h := range hs {
+			if h.Steps[0].Probes[0] > 0 {
+				h.Steps[0].Probes[0] = 0
+				break
+			}
+		}
+	}
+
+	var mu sync.Mutex
+	var total replayStats
+	lens := map[int]int{}
+	opsSeen := map[string]int{}
+	var infra atomic.Value
+	c.ParMap(len(hs), func(i int) {
+		if infra.Load() != nil {
+			return
+		}
+		h := hs[i]
+		u := us[h.Unit]
+		w := wp.get()
+		defer wp.put(w)
+		var st replayStats
+		seed := c.Seed*1000003 + int64(i)
+		ms, log, err := replayHistory(w, u, h, seed, &st)
+		if err != nil {
+			w.stop()
+			infra.Store(fmt.Errorf("replay of %s in unit %s: %v", h.key, u.Name, err))
+			return
+		}
+		reportHistory(c, u, h, ms, log, seed)
+		c.Distinct("h|" + h.key)
+		mu.Lock()
+		total.evals += st.evals
+		total.loads += st.loads
+		total.stores += st.stores
+		total.crashes += st.crashes
+		total.damages += st.damages
+		lens[len(h.Steps)]++
+		for _, s := range h.Steps {
+			opsSeen[s.Op.Kind+":"+s.Op.Arg]++
+		}
+		mu.Unlock()
+		if i < 3 {
+			c.Sample(map[string]any{"unit": u.Name, "history": strings.TrimPrefix(h.key, fmt.Sprint(h.Unit)+"|"), "predicted_last_loads": h.Steps[len(h.Steps)-1].Probes})
+		}
+	})
+	if e := infra.Load(); e != nil {
+		c.Infra(e.(error))
+		return false
+	}
+	c.Add("evaluations", total.evals)
+	c.Set("histories_replayed", len(hs))
+	c.Set("history_lengths", lens)
+	c.Set("history_ops", opsSeen)
+	c.Set("loads_compared", total.loads)
+	c.Set("stores_run", total.stores)
+	c.Set("stores_killed", total.crashes)
+	c.Set("files_damaged", total.damages)
+	c.Set("spec_guard_discards", 0)
+	return true
+}
+
+// replayDir re-decides a recorded scenario.
+func replayDir(c *core.Ctx, dir string) {
+	b, err := os.ReadFile(filepath.Join(dir, "scenario.json"))
+	if err != nil {
+		c.Infra(err)
+		return
+	}
+	var head struct {
+		Kind string `json:"kind"`
+	}
+	if err := json.Unmarshal(b, &head); err != nil {
+		c.Infra(err)
+		return
+	}
+	wp, err := newWorkerPool(c.Scratch, 1)
+	if err != nil {
+		c.Infra(err)
+		return
+	}
+	defer wp.close()
+	switch head.Kind {
+	case "history":
+		var sc struct {
+			Unit    unitT   `json:"unit"`
+			Slots   [4]int  `json:"slots"`
+			History []stepT `json:"history"`
+			Seed    int64   `json:"seed"`
+		}
+		if err := json.Unmarshal(b, &sc); err != nil {
+			c.Infra(err)
+			return
+		}
+		h := &historyT{Slots: sc.Slots, Steps: sc.History, key: "0"}
+		for _, s := range h.Steps {
+			h.key += "|" + s.Op.String()
+		}
+		var st replayStats
+		w := wp.get()
+		ms, log, err := replayHistory(w, &sc.Unit, h, sc.Seed, &st)
+		wp.put(w)
+		if err != nil {
+			c.Infra(err)
+			return
+		}
+		reportHistory(c, &sc.Unit, h, ms, log, sc.Seed)
+		c.Add("evaluations", st.evals)
+	case "sweep":
+		replaySweep(c, wp, b)
+	case "roundtrip":
+		replayRoundTrip(c, wp, b)
+	default:
+		c.Infra(fmt.Errorf("unknown scenario kind %q", head.Kind))
+	}
+}
